@@ -307,7 +307,10 @@ impl World {
     }
     self.obs.push(format!("done#{:016x}", h));
     if dst == self.servers.len() {
-      let mut fresh = Server::new(vec![9, 200]).expect("server");
+      // the importer is alternately an unrelated instance and a replica configured with the exporter's own tag list
+      // (the realistic set-up: same epoch tags, own key, then sync)
+      let own: Vec<u8> = if self.servers.len() % 2 == 1 { self.registered[src].iter().copied().collect() } else { vec![9, 200] };
+      let mut fresh = Server::new(own).expect("server");
       import_into(&mut fresh, &bytes);
       self.servers.push(fresh);
       self.registered.push(self.registered[src].clone());
@@ -387,6 +390,19 @@ pub fn gen_c14(seed: u64, thorough: bool, only: Option<u64>, out: &mut Out) {
         w.puncture(0, mds[0]);
         w.sync(0, 1);
         w.eval(1, mds[0], &pts[0], false);
+      }
+      2 => {
+        // a replica configured with the same tags takes over the exporter's state: its proofs must verify under the
+        // (imported) public key, for every tag
+        w.sync(0, 1);
+        for &md in &mds {
+          w.eval(1, md, &pts[0], true);
+        }
+        w.puncture(0, mds[0]);
+        w.sync(0, 2);
+        for &md in &mds {
+          w.eval(2, md, &pts[1], true);
+        }
       }
       1 => {
         w.eval(0, *mds.last().unwrap(), &pts[0], true);
